@@ -23,6 +23,7 @@ import hashlib
 import json
 import logging
 import random
+import re
 import struct
 
 import gen_c17
@@ -35,7 +36,7 @@ PROPS_FILE = "Ipv8/C17/Props.lean"
 DRIVER = "drv_c17"
 RULE = ("worlds of 3 real IdentityCommunity nodes + 2 node-less third-party keys; each world = one scripted opener "
         "(cross-subject registration, expiry boundary, third-party attestation stored first, replay, long chain, "
-        "sha1, fixed-metadata, wrong-name, tainted disclosure, none) followed by 25-45 seeded events drawn from: add_known_hash (any subject incl. "
+        "sha1, fixed-metadata, wrong-name, tainted disclosure, restart over the same database, stale-plus-fresh registration, none) followed by 25-45 seeded events drawn from: add_known_hash (any subject incl. "
         "third parties, 5 hashes + one 20-byte hash, 3 names, 5 metadata dicts), request_attestation_advertisement, "
         "self_advertise (single / bulk), deliver / replay / drop of captured packets, clock steps incl. exactly +300 "
         "and +301 s after a registration, crafted DisclosePayload (own tokens, shadow tokens with foreign hashes, "
@@ -114,6 +115,9 @@ class World:
         self.by_addr = {a: k for k, a in self.addr.items()}
         for k, n in self.nodes.items():
             n.endpoint.send = self._mk_send(k)
+        self.retired = []                                   # objects of earlier lifetimes (stopped at the end)
+        self.lifetime = {k: 0 for k in self.nodes}
+        self.attested_life = {k: {} for k in self.nodes}    # v -> metadata hash -> lifetime in which it was attested
         # interning
         self._h, self._n, self._x, self._s = {}, {}, {}, {}
         self._vkc = {}
@@ -383,6 +387,7 @@ class World:
                 self.oracle_tokens_out(v, trigger, e, api)
 
     def oracle_attest(self, v, trigger, e, now):
+        self.ctx.count("oracle:attest-judged")
         p = e.dst
         mp = e.body.attestation[:32]
         tag = f"node {v} attested metadata #{self.hid(mp)} for subject {p} at t={now}"
@@ -391,8 +396,15 @@ class World:
             return
         site = "should_sign"
         if mp in self.attested[v]:
-            self.fail(site + ":attested-twice", tag + " although it had attested the same metadata before")
+            if self.attested_life[v].get(mp) == self.lifetime[v]:
+                self.fail(site + ":attested-twice", tag + " although it had attested the same metadata before")
+            else:
+                self.ctx.count("oracle:attested-again-after-restart")
+                self.fail(site + ":attested-twice-after-restart", tag + " although it had attested the same metadata "
+                          "before a restart (its own row was dropped in favour of a third party's, primary key "
+                          "(subject, metadata)): the database guard cannot see it")
         self.attested[v].append(mp)
+        self.attested_life[v][mp] = self.lifetime[v]
         if not self.crypto.is_valid_signature(self.pk[v], mp, e.body.attestation[32:]):
             self.fail("create_attestation:bad-own-signature", tag + " with a signature that does not verify")
         md = self.metas.get(mp)
@@ -448,6 +460,8 @@ class World:
     def oracle_tokens_out(self, s, trigger, e, api):
         p = e.dst
         toks, _ = self.parse_tokens(e.body.tokens)
+        self.ctx.count("oracle:handout-judged:%s:%s" % ("missing_response" if e.kind == 4 else "disclose",
+                                                        "empty" if not toks else "tokens"))
         site = "on_request_missing" if e.kind == 4 else "request_attestation_advertisement"
         if e.kind == 1 and api != "advert":
             site = "ez_send"
@@ -473,6 +487,9 @@ class World:
             if r in old:
                 continue
             subj, auth, mp, sig = r
+            self.ctx.count("oracle:row-judged:" + ("own" if auth == self.pkbin[v] else
+                                                   "from-attest-msg" if trigger is not None and trigger.kind == 2
+                                                   else "from-disclosure"))
             try:
                 ok = self.crypto.is_valid_signature(self.crypto.key_from_public_bin(auth), mp, sig)
             except Exception:
@@ -506,6 +523,39 @@ class World:
         self.ctx.count("reg:subject=" + ("node" if subj <= N_NODES else "third-party"))
         self.check_dump(v)
 
+    def ev_restart(self, v):
+        """A new IdentityCommunity object (and a new IdentityManager: empty pseudonym cache) over the same database."""
+        from ipv8.attestation.identity.community import IdentityCommunity, IdentitySettings
+        from ipv8.attestation.identity.manager import IdentityManager
+        from ipv8.peer import Peer
+        from ipv8.test.mocking.ipv8 import MockIPv8
+        self.trace.append({"op": "restart", "v": v})
+        old = self.nodes[v]
+        old_chain = [t.get_hash() for t in old.overlay.token_chain]
+        im = IdentityManager(":memory:")
+        im.database.close()
+        im.database = old.overlay.identity_manager.database      # same tables, nothing else survives
+        n = MockIPv8(Peer(self.sk[v]), IdentityCommunity, settings=IdentitySettings(identity_manager=im))
+        self.retired.append(old)
+        self.nodes[v], self.ov[v] = n, n.overlay
+        self.addr[v] = n.endpoint.wan_address
+        self.by_addr[self.addr[v]] = v
+        n.endpoint.send = self._mk_send(v)
+        self.lifetime[v] += 1
+        new_chain = [t.get_hash() for t in n.overlay.token_chain]
+        # oracle bookkeeping: the user has to open the chain again; the chain is whatever the object reloaded
+        if sorted(new_chain) != sorted(set(new_chain)) or any(h not in old_chain for h in new_chain):
+            self.fail("__init__:chain-reload", f"node {v} reloaded a chain with tokens it never had")
+        self.ctx.count("restart:chain=%s" % ("same" if new_chain == old_chain else
+                                             "reversed" if new_chain == old_chain[::-1] else
+                                             "shorter" if len(new_chain) < len(old_chain) else "permuted"))
+        self.chain[v] = new_chain
+        self.perm[v] = {}
+        self.lines.append("Z %d [%s]" % (v, ",".join(str(self.hid(h)) for h in new_chain)))
+        self.expect.append("ok")
+        self.ctx.count("ev:restart")
+        self.check_dump(v)
+
     def ev_advance(self, dt):
         self.trace.append({"op": "adv", "dt": dt})
         self.loop.advance(dt)
@@ -526,10 +576,16 @@ class World:
             self.chain[s].append(th)
             self.perm[s][v] = len(self.chain[s])
             mlen = 4 + len(meta.get_plaintext_signed())
-            self.lines.append("V %d %d %d %d %d %d" % (s, self.now(), v, self.hid(th), self.hid(meta.get_hash()), mlen))
+            # after a restart the reloaded chain can fork (metadata_chain is rebuilt in set order): the model's linear
+            # chain does not predict how many tokens the new token's root path has
+            self.lines.append("V %d %d %d %d %d %d %s" % (s, self.now(), v, self.hid(th), self.hid(meta.get_hash()), mlen,
+                                                         "x" if self.lifetime[s] else "n"))
         else:
-            self.lines.append("V %d %d %d 0 0 0" % (s, self.now(), v))
-        self.expect.append(" ".join(sorted(self.out_str(e) for e in emitted)) or "-")
+            self.lines.append("V %d %d %d 0 0 0 n" % (s, self.now(), v))
+        outs = sorted(self.out_str(e) for e in emitted)
+        if self.lifetime[s]:
+            outs = sorted(re.sub(r"^(P\d+:\[\d*\]):\d+$", r"\1:*", o) for o in outs)
+        self.expect.append(" ".join(outs) or "-")
         self.oracle_outputs(s, None, emitted, api="advert")
         self.ctx.count("ev:advert")
         self.check_dump(s)
@@ -934,6 +990,53 @@ class Gen:
                 for e in w.craft(a, v, pl, "clean disclosure"):
                     w.queue.remove(e)
                     w.ev_deliver(e)
+        elif kind == "stale-plus-fresh":
+            # an expired registration next to a fresh one for the same subject: only the fresh one may be honoured
+            w.ev_reg(v, h1, name, a, None)
+            w.ev_advance(rng.choice([301, 302, 400, 1000]))
+            w.ev_reg(v, h2, name, a, None)
+            w.ev_selfadv(a, h1, name)
+            m1 = w.ov[a].metadata_chain[-1]
+            w.ev_selfadv(a, h2, name)
+            m2 = w.ov[a].metadata_chain[-1]
+            real = [t.get_plaintext_signed() for t in w.ov[a].token_chain]
+            w.trace.append({"op": "opener", "kind": kind})
+            mds = [m1.get_plaintext_signed(), m2.get_plaintext_signed()]
+            rng.shuffle(mds)
+            pl = w.P.DisclosePayload(frame_md(mds), b"".join(real), b"", b"")
+            for e in w.craft(a, v, pl, "stale and fresh credential"):
+                w.queue.remove(e)
+                w.ev_deliver(e)
+        elif kind == "restart":
+            # first lifetime: attest a's credential, with or without a third party's attestation stored first;
+            # then a new object over the same database, a renewed registration, and the same disclosure again
+            third_first = rng.random() < 0.6
+            w.ctx.count("restart-opener:" + ("third-party-first" if third_first else "own-row-stored"))
+            w.ev_reg(v, h1, name, a, None)
+            w.ev_selfadv(a, h1, name)
+            meta = w.ov[a].metadata_chain[-1]
+            real = [t.get_plaintext_signed() for t in w.ov[a].token_chain]
+            x = rng.choice([k for k in w.sk if k not in (a, v)])
+            att, auth = (mk_attestation(w, x, meta.get_hash()), frame_auth(w, [x])) if third_first else (b"", b"")
+            w.trace.append({"op": "opener", "kind": kind, "third_first": third_first})
+            pl = w.P.DisclosePayload(frame_md([meta.get_plaintext_signed()]), b"".join(real), att, auth)
+            pk = w.craft(a, v, pl, "disclosure before restart")
+            for e in pk:
+                w.queue.remove(e)
+                w.ev_deliver(e)
+            self.flush()
+            if rng.random() < 0.5:
+                w.ev_advert(v, b, h2, name, None)       # v also has a chain of its own and opened it to b
+                self.craft_request(b, v, known=0)
+            w.ev_restart(v)
+            self.craft_request(b, v, known=0)           # permissions do not survive
+            for e in pk:
+                w.ev_deliver(e, replayed=True)           # nothing registered in this lifetime: unsolicited
+            w.ev_reg(v, h1, name, a, None)
+            for e in pk:
+                w.ev_deliver(e, replayed=True)
+            for e in pk:
+                w.ev_deliver(e, replayed=True)
         elif kind == "replay":
             w.ev_reg(v, h1, name, a, None)
             w.ev_advert(a, v, h1, name, None)
@@ -1012,12 +1115,14 @@ class Gen:
                 e = rng.choice(w.history)
                 w.trace.append({"op": "replay", "kind": e.kind, "src": e.src, "dst": e.dst})
                 w.ev_deliver(e, replayed=True)
-        elif r < 0.60:
+        elif r < 0.595:
             if w.queue:
                 w.queue.pop(rng.randrange(len(w.queue)))
                 w.trace.append({"op": "drop"})
                 w.ctx.count("ev:drop")
-        elif r < 0.68:
+        elif r < 0.61:
+            w.ev_restart(self.node())
+        elif r < 0.69:
             # clock: small steps, or exactly onto / past the end of some registration's window
             allregs = [x for v in w.regs for x in w.regs[v]]
             if allregs and rng.random() < 0.5:
@@ -1042,7 +1147,7 @@ class Gen:
 
 
 OPENERS = ["cross-subject", "expiry", "third-party-first", "replay", "long-chain", "sha1", "fixed-metadata",
-           "wrong-name", "tainted", "none"]
+           "wrong-name", "tainted", "restart", "stale-plus-fresh", "none"]
 
 
 async def run_world(ctx: Ctx, loop, use_model: bool, opener: str, n_events: int, world_seed: int):
@@ -1057,7 +1162,7 @@ async def run_world(ctx: Ctx, loop, use_model: bool, opener: str, n_events: int,
             g.random_event()
         g.flush(limit=20)
     finally:
-        for n in w.nodes.values():
+        for n in list(w.nodes.values()) + w.retired:
             await n.stop()
     return w
 
@@ -1140,7 +1245,7 @@ async def run_matrix_world(ctx: Ctx, loop, use_model, combo, world_seed):
             w.ev_deliver(e, replayed=True)
         g.flush()
     finally:
-        for n in w.nodes.values():
+        for n in list(w.nodes.values()) + w.retired:
             await n.stop()
     return w
 
